@@ -288,3 +288,27 @@ impl LuaIndex for LuaMemberIndex {
         self.owner_members.clear();
     }
 }
+
+#[cfg(emmyluals_emmylua_analyzer_rust_verif)]
+impl LuaMemberIndex {
+    /// Verification hook: entry counts of every container of this index.
+    pub fn verif_sizes(&self) -> Vec<(&'static str, usize)> {
+        vec![
+            ("members", self.members.len()),
+            ("in_filed", self.in_filed.len()),
+            (
+                "in_filed/items",
+                self.in_filed.values().map(|v| v.len()).sum(),
+            ),
+            ("owner_members", self.owner_members.len()),
+            (
+                "owner_members/keys",
+                self.owner_members
+                    .values()
+                    .map(|m| m.get_member_len())
+                    .sum(),
+            ),
+            ("member_current_owner", self.member_current_owner.len()),
+        ]
+    }
+}
